@@ -4,7 +4,7 @@
 From Coq Require Import String PrimFloat Permutation Sorted.
 From PV Require Import Lib.Common Lib.FloatK Lib.C16_Spec Model.C16_Store Model.C16_Heap Model.C16_Codec Gen.C16_Fields
                        Gen.C16_Kernel Model.C16_Kernel Model.C16_Maps Proofs.C16_Maps
-                       Proofs.C16_Utf8 Proofs.C16_Store Proofs.C16_Nested Proofs.C16_Tables Proofs.C16_Heap Proofs.C16_Codec Proofs.C16_Kernel.
+                       Proofs.C16_Utf8 Proofs.C16_Store Proofs.C16_Nested Proofs.C16_Tables Proofs.C16_Heap Proofs.C16_Alias Proofs.C16_Codec Proofs.C16_Kernel.
 Local Open Scope Z_scope.
 
 (** ** labels: every string of unicode scalar values survives the UTF-8 storage of HDF5 (non-ASCII labels included) *)
@@ -337,6 +337,25 @@ Theorem C16_codec_roundtrip_egmap_partial : forall (g : gmap) (auto_group : bool
 Proof. exact egmap_roundtrip_partial. Qed.
 Print Assumptions C16_codec_roundtrip_egmap_partial.
 
+(** the table readers address a column by name or by position: in every such conditional of the current source the three
+    occurrences are the same argument, and the genetic-map readers assign it to the field it is named after (finite domain:
+    the rows of this run's table, at least the 16 of StandardGeneticMap, ExtendedGeneticMap, DenseCoancestryMatrix,
+    DenseBreedingValueMatrix) *)
+Theorem C16_kernel_column_selection : forallb col_row_ok k_col_select = true /\ (16 <= length k_col_select)%nat.
+Proof. exact col_select_ok. Qed.
+Print Assumptions C16_kernel_column_selection.
+
+(** ** aliasing freedom at the top level, for shallow and deep copies alike: every attribute that __copy__ / __deepcopy__ passes
+    through copy.copy / copy.deepcopy is None, an immediate, or a cell allocated by the copy - hence never the cell an attribute
+    of the source refers to (a shallow copy may share the contents of containers, not the containers) *)
+Theorem C16_copy_toplevel_fresh : forall specs fuel deep s h o h' o', class_copy specs fuel deep s h o = Some (h', o') ->
+  Forall2 (copied_fresh (length h)) (filter (fun c => negb (String.eqb (csrc c) "")) (if deep then dp_ctor s ++ dp_post s else cp_ctor s ++ cp_post s)) o'.
+Proof. exact class_copy_toplevel_fresh. Qed.
+Print Assumptions C16_copy_toplevel_fresh.
+Theorem C16_copy_fresh_not_shared : forall n v w, hv_lt n v -> hv_ge n w -> same_ref v w = false.
+Proof. exact fresh_not_same. Qed.
+Print Assumptions C16_copy_fresh_not_shared.
+
 (** non-vacuity: concrete objects meet the hypotheses; the write succeeds; a variance matrix with sorted labels does round-trip *)
 Example C16_hyps_satisfiable :
   (wf_obj spec_ALGM (w_model w_hyper) = true /\ In spec_ALGM persistable /\ Forall (fun kv => snd kv <> None) w_hyper /\ parents_ok []
@@ -346,10 +365,14 @@ Example C16_hyps_satisfiable :
   /\ opt_eqb vm_eqb (vm_from_pandas true (vm_to_pandas true w_vm_sorted)) (Some w_vm_sorted) = true
   /\ (exists h' o', class_copy [spec_ALGM] 4 true spec_BV [CArr (VArr TF64 [1; 1] [0])] [("mat"%string, HRef 0%nat)] = Some (h', o'))
   /\ (exists f', write_all_k spec_ALGM [] (Some [109]) [w_model [([120], Some (VInt 1))]; w_model w_hyper] = (f', None))
-  /\ opt_eqb vm_eqb (vm_from_pandas true (vm_to_pandas_k true w_vm_sorted)) (Some w_vm_sorted) = true.
+  /\ opt_eqb vm_eqb (vm_from_pandas true (vm_to_pandas_k true w_vm_sorted)) (Some w_vm_sorted) = true
+  /\ (exists g s0, g_stop g = Some s0 /\ g_name g = None /\ g_fn g = None /\ g_chr g <> [])
+  /\ (exists k, k = zs k_egmap_build_default_kind /\ ctor_kind true k true = k).
 Proof.
   split; [destruct w_model_wf as [A [B [C D]]]; split; [exact A|]; split; [exact B|]; split; [exact C|]; split; [exact parents_nil | exact D]|].
   destruct w_objs_wf as [A [B C]]. split; [exact A|]. split; [exact B|]. split; [exact C|].
   split; [eexists; vm_compute; reflexivity|]. split; [exact vm_pandas_sorted_ok|]. split; [eexists; eexists; vm_compute; reflexivity|].
-  split; [eexists; vm_compute; reflexivity | exact vm_pandas_sorted_ok_k].
+  split; [eexists; vm_compute; reflexivity|]. split; [exact vm_pandas_sorted_ok_k|].
+  split; [exists (mkG [1] [10] (Some [11]) [0%float] None None), [11]; repeat split; discriminate|].
+  eexists. split; [reflexivity | apply egm_ctor_partial; right; reflexivity].
 Qed.
